@@ -30,7 +30,7 @@ func hugeSizes() []int {
 func init() {
 	// everything is produced first and consumed afterwards: the backlog of the unbounded channel reaches N
 	progs["new-huge-backlog"] = func(c *caseT) string {
-		ctx, cancel := context.WithCancel(context.Background())
+		ctx, cancel := ctxOf(c.Arg)
 		defer cancel()
 		rcv, snd := pipe.New[int](ctx, c.Cap)
 		for i := 1; i <= c.N; i++ {
@@ -138,6 +138,12 @@ func progsHuge(t *testing.T, prop string) {
 		case "C08":
 			runProg(t, prop, &caseT{Stage: "prog/new-huge-backlog", N: n, Cap: 0})
 			runProg(t, prop, &caseT{Stage: "prog/new-huge-backlog", N: n, Cap: 64})
+			if n <= 1<<18 {
+				// contexts that can never be cancelled (their Done channel is nil) and contexts with values or deadlines
+				for _, kind := range []string{"background", "todo", "without-cancel", "value", "value-on-background", "deadline-far"} {
+					runProg(t, prop, &caseT{Stage: "prog/new-huge-backlog", N: n, Cap: n % 3, Arg: kind})
+				}
+			}
 		case "C10":
 			runProg(t, prop, &caseT{Stage: "prog/fork-fold-wide", Par: 1, N: n, Monoid: "sum", FSeed: 1})
 			runProg(t, prop, &caseT{Stage: "prog/fork-fold-wide", Par: 2, N: 2 * n, Monoid: "sum", FSeed: 2})
